@@ -377,11 +377,19 @@ Definition mk_stop_iter (s : store) : store * value :=
   let '(s1, a) := alloc s (OInst (cc_stop_iter (s_cc s)) [(context_name, VNil)]) in
   (s1, VInst a).
 
+(* the end test of a for loop: an instance whose class is StopIter or derives from it
+   (vm.rs jump_if_stop_iter walks the superclass chain, as `derives` in core.yl's adapters does) *)
+Fixpoint class_derives (fuel : nat) (s : store) (c : option addr) (q : addr) : bool :=
+  match fuel, c with
+  | S f, Some a => Pos.eqb a q || class_derives f s (class_super s a) q
+  | _, _ => false
+  end.
+
 Definition is_stop_iter (s : store) (v : value) : bool :=
   match v with
   | VInst a =>
     match get_obj s a with
-    | Some (OInst c _) => Pos.eqb c (cc_stop_iter (s_cc s))
+    | Some (OInst c _) => class_derives 1000 s (Some c) (cc_stop_iter (s_cc s))
     | _ => false
     end
   | _ => false
